@@ -1,6 +1,6 @@
 /-
 C17 — `skeleton_ok` (Lemmas/C17Skel.lean), part H: the fields `kids_nodup`, `done_kid`, `add_adder`,
-`wait_once`, `adds_before`, `start_head`, `start_root` of `System.OK`.  Core Lean only.
+`wait_once`, `adds_before`, `start_head`, `start_root`, `recvc_one` of `System.OK`.  Core Lean only.
 -/
 import DastardV.Lemmas.C17SkelG
 set_option linter.unusedSimpArgs false
@@ -12,7 +12,7 @@ variable (s : Sched)
 
 /-! ### the programs of particular thread ids -/
 
-theorem wgProg_tR : s.wgProg tR = [.wgAdd oRund, .wgWait oRund] := by
+theorem wgProg_tR : s.wgProg tR = [.wgAdd oRund] := by
   unfold wgProg; simp only [show clsOf tR = 0 from rfl, if_true]
 
 theorem wgProg_tL : s.wgProg tL = s.wgL := by
@@ -342,12 +342,9 @@ theorem sys_adds_before (hn : 0 < s.n) (w : Obj) (pre post : List Ev)
   · rw [eq_oWga_of_cls h10, adder_wga, wgProg_tA s hn]; exact AB_wgA s _
   · by_cases h11 : clsOf w = 11
     · rw [eq_oWgp_of_cls h11, adder_wgp, wgProg_tL]; exact AB_wgL s _
-    · rw [adder_other s h10 h11, wgProg_tR]
-      by_cases hw : w = oRund
-      · subst hw
-        rw [kids_rund]
-        exact AB.base (w := oRund) (a := [.wgAdd oRund]) (by simp)
-      · exact AB.of_not_mem (by simp [hw])
+    · -- the run's wait group is never waited on (Stop waits on the closed channel `rundone`)
+      rw [adder_other s h10 h11, wgProg_tR]
+      exact AB.of_not_mem (by simp)
 
 /-! ### start_root and start_head -/
 
@@ -430,6 +427,117 @@ theorem sys_start_head (hn : 0 < s.n) (t : Tid) (ht : t ∉ s.system.roots) :
     have h2 : 0 < cnt .start r := List.count_pos_iff.2 hm
     have h3 : cnt .start (.start :: r) = cnt .start r + 1 := by simp [cnt, List.count_cons]
     omega
+
+/-! ### recvc_one: only the control client receives from the closed per-run channel -/
+
+/-- receives that observe a closed channel -/
+def rcEv : Ev → Bool
+  | .recvC _ => true
+  | _ => false
+
+theorem mem_filter_rc {e : Ev} (he : rcEv e = true) (l : List Ev) : e ∈ l.filter rcEv ↔ e ∈ l := by
+  rw [List.mem_filter]; exact ⟨fun h => h.1, fun h => ⟨h, he⟩⟩
+
+theorem rc_reqBody (b : Nat) : (s.reqBody b).filter rcEv = [] := by
+  unfold reqBody
+  split <;> simp [perChan, List.filter_flatMap, rcEv, flatMap_nil_fun]
+
+theorem rc_blockL (b : Nat) : (s.blockL b).filter rcEv = [] := by
+  unfold blockL
+  simp only [List.filter_append, filter_ite, rc_reqBody, List.filter_cons, List.filter_nil, rcEv, perChan,
+    List.filter_flatMap, Bool.false_eq_true, if_false, if_true, ite_self, flatMap_nil_fun, List.append_nil,
+    List.nil_append]
+
+theorem rc_progL : s.progL.filter rcEv = [.recvC oNbClose] := by
+  unfold progL firstReq
+  simp only [List.filter_append, filter_ite, rc_blockL, List.filter_cons, List.filter_nil, rcEv, perChan,
+    List.filter_flatMap, Bool.false_eq_true, if_false, if_true, ite_self, flatMap_nil_fun, List.append_nil,
+    List.nil_append]
+
+theorem rc_progR : s.progR.filter rcEv = [.recvC oRunDone] := by
+  unfold progR
+  simp only [List.filter_append, filter_ite, List.filter_cons, List.filter_nil, rcEv, perChan,
+    List.filter_flatMap, Bool.false_eq_true, if_false, if_true, ite_self, flatMap_nil_fun, List.append_nil,
+    List.nil_append, List.cons_append]
+
+theorem rc_progS : s.progS.filter rcEv = [] := by
+  unfold progS
+  simp only [List.filter_append, List.filter_cons, List.filter_nil, rcEv,
+    List.filter_flatMap, Bool.false_eq_true, if_false, flatMap_nil_fun, List.append_nil]
+
+theorem rc_progP : s.progP.filter rcEv = [.recvC oAbort] := by
+  unfold progP
+  simp only [List.filter_append, filter_ite, List.filter_cons, List.filter_nil, rcEv, perChan,
+    List.filter_flatMap, Bool.false_eq_true, if_false, if_true, ite_self, flatMap_nil_fun, List.append_nil,
+    List.nil_append]
+
+theorem rc_progA_filter (b : Nat) : (s.progA b).filter rcEv = if b < s.k then [] else [.recvC oBufc] := by
+  unfold progA
+  by_cases hb : b < s.k
+  · simp only [hb, if_true]
+    simp only [List.filter_append, filter_ite, List.filter_cons, List.filter_nil, rcEv, perChan,
+      List.filter_flatMap, Bool.false_eq_true, if_false, if_true, ite_self, flatMap_nil_fun, List.append_nil,
+      List.nil_append]
+  · simp only [hb, if_false]
+    rfl
+
+theorem rc_progA (b : Nat) {c : Obj} (h : .recvC c ∈ s.progA b) : c = oBufc := by
+  rw [← mem_filter_rc rfl, rc_progA_filter] at h
+  split at h
+  · cases h
+  · rw [List.mem_singleton] at h; injection h
+
+theorem rundone_ne : oRunDone ≠ oNbClose ∧ oRunDone ≠ oAbort ∧ oRunDone ≠ oBufc := by decide
+
+theorem recvC_rundone_tid (hn : 0 < s.n) (t : Tid) (h : .recvC oRunDone ∈ s.prog t) : t = tR := by
+  have hn0 : (s.n == 0) = false := by simp; omega
+  unfold prog at h
+  simp only [hn0, Bool.false_eq_true, if_false] at h
+  split at h
+  · split at h
+    next ht => simpa using ht
+    next => cases h
+  · split at h
+    · rw [← mem_filter_rc rfl, rc_progL, List.mem_singleton] at h
+      injection h with h; exact absurd h rundone_ne.1
+    · cases h
+  · split at h
+    · rw [← mem_filter_rc rfl, rc_progP, List.mem_singleton] at h
+      injection h with h; exact absurd h rundone_ne.2.1
+    · cases h
+  · split at h
+    · rw [← mem_filter_rc rfl, rc_progS] at h; cases h
+    · cases h
+  · split at h
+    · exact absurd (rc_progA s _ h) rundone_ne.2.2
+    · cases h
+  all_goals first
+    | cases h
+    | (split at h
+       · simp [progAW, progW, progAR] at h
+       · cases h)
+
+theorem closePay_ne_nil {c : Obj} (h : s.system.sp.closePay c ≠ []) : c = oRunDone := by
+  change (mkSpec s.par).closePay c ≠ [] at h
+  by_cases hc : c = enc 14 0
+  · exact hc
+  · exact absurd (closePay_other s.par c hc) h
+
+theorem sys_recvc_one (hn : 0 < s.n) (c : Obj) (h : s.system.sp.closePay c ≠ []) :
+    (∀ t, t ≠ s.system.waiter c → .recvC c ∉ s.system.P t) ∧
+      cnt (.recvC c) (s.system.P (s.system.waiter c)) ≤ 1 := by
+  have hc := closePay_ne_nil s h
+  subst hc
+  show (∀ t, t ≠ tR → .recvC oRunDone ∉ s.prog t) ∧ cnt (.recvC oRunDone) (s.prog tR) ≤ 1
+  refine ⟨fun t ht hm => ht (recvC_rundone_tid s hn t hm), ?_⟩
+  have e : s.prog tR = s.progR := by
+    have hn0 : (s.n == 0) = false := by simp; omega
+    unfold prog; simp only [hn0, show clsOf tR = 0 from rfl, BEq.rfl, if_true]
+  rw [e]
+  have : cnt (.recvC oRunDone) (s.progR.filter rcEv) = cnt (.recvC oRunDone) s.progR := by
+    unfold cnt; exact List.count_filter (by rfl)
+  rw [← this, rc_progR]
+  simp [cnt]
 
 end
 end DastardV.C17
